@@ -113,6 +113,11 @@ def build_state(kind, rname, m, spelling):
         else:
             kw = '*trcl=(%s)' % tr_numbers(m, True)
         st.cells = ['1 0 -1 %s imp:n=1' % kw, '2 0 1 %s imp:n=1' % kw]
+        if kind in ('rpp', 'rcc'):
+            # facet references inside the transformed cell
+            for j in range(1, len(ref.comps) + 1):
+                st.cells.append('%d 0 -1.%d %s imp:n=1' % (20 + j, j, kw)); st.expect[20 + j] = ('facet', j, -1)
+                st.cells.append('%d 0 1.%d %s imp:n=1' % (30 + j, j, kw)); st.expect[30 + j] = ('facet', j, 1)
     else:
         st.surfs = ['1 ' + card]
         st.data = ['tr7 ' + tr12]
@@ -174,8 +179,9 @@ def jfmt(vals):
     return ' '.join('j' if v is None else fmt(clean(v)) for v in vals)
 
 
-ABBREV_FORMS = ['9', '6rows12', '6rows23', '6cols12', '5r1c1', '5r2c2', '5r1c3', '3row1', '3row2', '3col1',
-                '3row3']
+ABBREV_FORMS = (['9', '6rows12', '6rows13', '6rows23', '6cols12', '6cols13', '6cols23']
+                + ['5r%dc%d' % (r, c) for r in (1, 2, 3) for c in (1, 2, 3)]
+                + ['3row1', '3row2', '3row3', '3col1', '3col2', '3col3'])
 
 
 def abbreviate(Bflat, form):
@@ -326,7 +332,13 @@ def check_state(scn, st, transpose=False):
         clear &= np.abs(v) > 1e-7 * max(1.0, np.abs(v).max())
     P = P[clear]
     neg, pos = ref.neg(P), ref.pos(P)
-    exp = {c: (neg if s == 'neg' else pos) for c, s in st.expect.items()}
+    exp = {}
+    for c, sdesc in st.expect.items():
+        if isinstance(sdesc, tuple):
+            fv = ref.comps[sdesc[1] - 1][0](P)
+            exp[c] = (fv < 0) if sdesc[2] < 0 else (fv > 0)
+        else:
+            exp[c] = neg if sdesc == 'neg' else pos
     bad = oracle.compare_cells(t4, P, exp)
     stats = {'probe_points': len(P), 'objects': {st.kind}, 'spellings': {st.spelling}}
     if bad:
